@@ -94,6 +94,14 @@ class _State:
 
 def _step(st, op, i, j, val):
     """apply one operation to the real store and to the model; False = property violated"""
+    dfl_before = copy.deepcopy(st.dfl)
+    ok = _step_inner(st, op, i, j, val)
+    if ok and op != 2 and st.dfl != dfl_before:
+        return False                                  # set / refresh / get must not rewrite the stored defaults
+    return ok
+
+
+def _step_inner(st, op, i, j, val):
     key = _key(i, j)
     parts = [_canon(p) for p in key.split(".")]
     if op == 0 or op == 1:                       # set, mapping form / keyword form
@@ -227,6 +235,82 @@ def context_restore__reach(i1: int, j1: int, v1: int, i2: int, j2: int, v2: int)
     post: __return__ == False
     """
     return context_restore(i1, j1, v1, i2, j2, v2)
+
+
+DEEP = ["a.x.p", "a.x.q", "a.y.p", "b_c.x.p", "b-c.x.p", "a.x", "b_c.x-y.p_q"]
+
+
+def _deep_nested(key, val):
+    return _nested(key.split("."), val)
+
+
+def deep_defaults(k1: int, v1: int, k2: int, v2: int, k3: int, v3: int, order: int) -> bool:
+    """keys three levels deep: defaults, then set, then refresh restores exactly the accumulated
+    defaults (the stored defaults are never rewritten through a shared sub-mapping)
+
+    pre: 0 <= k1 < len(DEEP) and 0 <= k2 < len(DEEP) and 0 <= k3 < len(DEEP) and 0 <= order <= 1
+    pre: _fix("k1", k1)
+    post: __return__ == True
+    """
+    if len({_canon(DEEP[k].split(".")[0]): DEEP[k].split(".")[0] for k in (k1, k2, k3)}) != \
+            len({DEEP[k].split(".")[0] for k in (k1, k2, k3)}):
+        return True                                    # clashing spellings under update_defaults: outside
+    cfg, dfl = {}, []
+    m_cfg, m_dfl = {}, {}
+    steps = [("d", k1, v1), ("s", k2, v2), ("d", k3, v3)] if order == 0 else [("d", k1, v1), ("d", k3, v3), ("s", k2, v2)]
+    for kind, k, v in steps:
+        key = DEEP[k]
+        parts = [_canon(p) for p in key.split(".")]
+        if kind == "d":
+            prev = copy.deepcopy(m_dfl)
+            _model_merge(m_cfg, _nested(parts, v), "new-defaults", prev)
+            _model_merge(m_dfl, _nested(parts, v), "new", {})
+            qc.update_defaults(_deep_nested(key, v), config=cfg, defaults=dfl)
+        else:
+            before = copy.deepcopy(dfl)
+            if not _model_set(m_cfg, parts, v):
+                try:
+                    qc.set({key: v}, config=cfg)
+                except TypeError:
+                    continue
+                return False
+            qc.set({key: v}, config=cfg)
+            if dfl != before:
+                return False
+            if qc.get(key, config=cfg) != v:
+                return False
+        if _norm(cfg) != m_cfg:
+            return False
+    qc.refresh(config=cfg, defaults=dfl, path=NOPATH)
+    return _norm(cfg) == m_dfl
+
+
+def context_multi(i1: int, j1: int, i2: int, j2: int, v0: int, v1: int, v2: int, v3: int, form: int) -> bool:
+    """one `with set(...)` block that writes several entries - possibly the same entry twice, through
+    the mapping and the keyword form or through both spellings - restores the state before the block
+
+    pre: 0 <= i1 < 4 and 0 <= j1 < 4 and 0 <= i2 < 4 and 0 <= j2 < 4 and 0 <= form <= 3
+    pre: _fix("form", form) and _fix("i1", i1)
+    post: __return__ == True
+    """
+    cfg = {}
+    key1, key2 = _key(i1, j1), _key(i2, j2)
+    p1 = [_canon(p) for p in key1.split(".")]
+    p2 = [_canon(p) for p in key2.split(".")]
+    model = {}
+    if form % 2:                                       # the first key exists before the block
+        _model_set(model, p1, v0)
+        qc.set({key1: v0}, config=cfg)
+    trial = copy.deepcopy(model)
+    if not (_model_set(trial, p1, v1) and _model_set(trial, p2, v2) and _model_set(trial, p1, v3)):
+        return True                                    # a write through a scalar must raise: covered by seq2
+    before = copy.deepcopy(cfg)
+    kw = {"__".join(p1): v3} if form >= 2 else {}
+    with qc.set({key1: v1, key2: v2}, config=cfg, **kw):
+        if qc.get(key2, config=cfg) != _model_get(trial, p2) or qc.get(key1, config=cfg) != _model_get(trial, p1):
+            if not (p1 == p2 or p1[:len(p2)] == p2 or p2[:len(p1)] == p1):
+                return False
+    return cfg == before
 
 
 BAD_DEVICES = ["cuda:9", "tpu", "gpu", "mps", "cuda", "", "CUDA:1", "cuda:x", "gpu:0"]
